@@ -146,12 +146,18 @@ def cut_tests(src):
     m = re.search(r"^#\[cfg\(test\)\]\s*\n\s*(pub(\([a-z]+\))?\s+)?mod\s+\w+", src, re.M)
     if not m:
         return src, False
-    return src[:m.start()], True
+    head = src[:m.start()]
+    # the test module may itself sit inside a block comment (syscalls.rs): drop the dangling opener too
+    if head.count("/*") > head.count("*/"):
+        head = head[:head.rindex("/*")]
+    return head, True
 
 
 _ATTR_LINE = re.compile(r"^[ \t]*#\[(wasm_bindgen[^\]]*|serde\([^\]]*\)|allow\(clippy[^\]]*\))\][ \t]*$", re.M)
+# a dropped `use` takes the attribute lines directly above it along (otherwise a `#[cfg(..)]` would
+# silently attach itself to the next item)
 _USE_DROP = re.compile(
-    r"^[ \t]*(use\s+(serde|wasm_bindgen|js_sys|wasm_bindgen_futures)\b[^;]*;|extern\s+crate\s+(console_error_panic_hook|lazy_static|elf)\s*;)[ \t]*$",
+    r"(^[ \t]*#\[[^\n]*\][ \t]*\n)*^[ \t]*(use\s+(serde|wasm_bindgen|js_sys|wasm_bindgen_futures)\b[^;]*;|extern\s+crate\s+(console_error_panic_hook|lazy_static|elf)\s*;)[ \t]*$",
     re.M)
 
 
@@ -204,6 +210,32 @@ def impl_methods(src, impl_start, impl_end):
         if m:
             res.append((s, e, m.group(1)))
     return res
+
+
+def select_methods(src, keep_method, keep_item=lambda h: True):
+    """Inside every `impl` block keep only the methods for which keep_method(name) holds (others are
+    blanked, line preserving); top-level non-impl items are kept iff keep_item(header)."""
+    out = src
+    for (s, e, hdr) in top_level_items(src):
+        if re.match(r"\s*(#\[[^\]]*\]\s*)*(unsafe\s+)?impl\b", hdr):
+            any_kept = False
+            for (ms, me, name) in impl_methods(src, s, e):
+                if keep_method(name):
+                    any_kept = True
+                else:
+                    out = blank(out, leading_attrs_start(src, ms), me)
+            if not any_kept:
+                out = blank(out, s, e)
+        elif not keep_item(hdr):
+            out = blank(out, s, e)
+    return out
+
+
+def enum_variants(src, name):
+    m = re.search(r"\benum\s+%s\s*\{" % re.escape(name), src)
+    end = match_brace(src, m.end() - 1)
+    body = re.sub(r"//[^\n]*", "", src[m.end():end])
+    return [v.strip().split("=")[0].strip() for v in body.split(",") if v.strip()]
 
 
 def find_fn(src, name):
